@@ -1,6 +1,7 @@
 import PhyVerif.Model.C14
 import PhyVerif.Spec.C14
 import PhyVerif.Lemmas.C14
+import PhyVerif.Lemmas.C14b
 /-!
 # C14 — exported ALF values equal the physical quantities they name
 Only property theorems + non-vacuity examples; proofs in `Lemmas/C14.lean`.
@@ -39,7 +40,165 @@ theorem cluster_depth_eq (ys : List Rat) (peaks nanIdx : List Nat) (c : Nat) (hc
       if nanIdx.contains c then none else some (ys.getD (peaks.getD c 0) 0) :=
   Lemmas.cluster_depth_eq ys peaks nanIdx c hc
 
+/-! ## Second part: unit factor, exported waveforms of the RETURNED templates, spike depths without features,
+durations in milliseconds (model additions at the end of `Model/C14.lean`, proofs in `Lemmas/C14b.lean`; the
+amplitude chain, the peak channel and the duration are the C09 models/theorems — this is the composition). -/
+
+/-- Exported spike, template and cluster amplitudes (and both waveform files) CARRY THE UNIT FACTOR: every file
+written with `ampfactor = f` is, entry by entry, the file written with `ampfactor = 1` times `f` (NaN stays NaN).
+No hypothesis: any data, any factor, any listed-channel tables. -/
+theorem amps_carry_factor (dT dC : Data) (f : Rat) (indsT indsC : List (List Nat)) :
+    let e := exportAmpFiles dT dC f indsT indsC
+    let e1 := exportAmpFiles dT dC 1 indsT indsC
+    e.spikesAmps = e1.spikesAmps.map (· * f) ∧
+    e.templatesAmps = e1.templatesAmps.map (fun o => o.map (· * f)) ∧
+    e.clustersAmps = e1.clustersAmps.map (fun o => o.map (· * f)) ∧
+    e.templatesWaveforms = e1.templatesWaveforms.map (fun o => o.map fun W => scaleMat W f) ∧
+    e.clustersWaveforms = e1.clustersWaveforms.map (fun o => o.map fun W => scaleMat W f) :=
+  Lemmas.amps_carry_factor dT dC f indsT indsC
+
+/-- `spikes.amps[i]` = stored amplitude × largest channel peak-to-peak of the spike's unwhitened template × unit
+factor (C09 `spikeAmpUnit_eq`; hypotheses as there: the real export raises `IndexError` for a spike whose template id
+is not below the number of templates). -/
+theorem spike_amps_eq (dT dC : Data) (f : Rat) (indsT indsC : List (List Nat)) (i : Nat)
+    (hi : i < dT.spikes.length) (ha : dT.amplitudes.length = dT.spikes.length)
+    (hs : dT.spikes.getD i 0 < dT.wfsW.length) :
+    (exportAmpFiles dT dC f indsT indsC).spikesAmps.getD i 0 =
+      dT.amplitudes.getD i 0 *
+        listMax (chAmps (matMul (dT.wfsW.getD (dT.spikes.getD i 0) []) dT.wmi)) * f :=
+  Lemmas.spike_amps_eq dT dC f indsT indsC i hi ha hs
+
+/-- `templates.amps[t]` / `clusters.amps[c]` = mean of the exported (unit-carrying) spike amplitudes over the member
+spikes of the template / cluster, NaN for ids without spikes; for clusters the spike amplitudes are those computed
+with the cluster waveforms (`use='clusters'`), which the export does not write. -/
+theorem template_cluster_amps_eq_mean (dT dC : Data) (f : Rat) (indsT indsC : List (List Nat))
+    (haT : dT.amplitudes.length = dT.spikes.length) (haC : dC.amplitudes.length = dC.spikes.length) :
+    (∀ t, t < dT.wfsW.length →
+      (exportAmpFiles dT dC f indsT indsC).templatesAmps.getD t none =
+        meanOver dT.spikes (exportAmpFiles dT dC f indsT indsC).spikesAmps t) ∧
+    (∀ c, c < dC.wfsW.length →
+      (exportAmpFiles dT dC f indsT indsC).clustersAmps.getD c none =
+        meanOver dC.spikes (spikeAmpsUnit dC f) c) ∧
+    (exportAmpFiles dT dC f indsT indsC).templatesAmps.length = dT.wfsW.length ∧
+    (exportAmpFiles dT dC f indsT indsC).clustersAmps.length = dC.wfsW.length :=
+  Lemmas.template_cluster_amps_eq_mean dT dC f indsT indsC haT haC
+
+/-- Exported waveforms ARE the unwhitened, amplitude-rescaled (unit-carrying) waveforms on the listed channels: for
+an id `t` with spikes (returned amplitude `v`), non-flat, rectangular `(ns, nc)`, amplitudes and factor ≥ 0, the
+exported block `E` has `ns` rows and `E[s][j] = U[s][inds[t][j]] · v / au` with `U` the unwhitened waveform and `au`
+its arbitrary-unit amplitude — and the full returned waveform `W` has `v` as its peak amplitude.  (The column of a
+listed channel `≥ nc` is the `getD` default here; the real code raises `IndexError`, and `nearest_ok` shows listed
+channels are `< #channels`.) -/
+theorem exported_waveform_rescaled (d : Data) (f : Rat) (inds : List (List Nat))
+    (hnn : ∀ a ∈ d.amplitudes, 0 ≤ a) (hf : 0 ≤ f) (t : Nat) (ht : t < d.wfsW.length)
+    (hti : t < inds.length) (v : Rat) (hv : (ampsVUnit d f).getD t none = some v)
+    (hau : 0 < (ampsAu d).getD t 0) (ns nc : Nat) (hns : 0 < ns) (hnc : 0 < nc)
+    (hrect : Rect ((unwhitened d).getD t []) ns nc) :
+    ∃ W E, (rescaledUnit d f).getD t none = some W ∧ IsPeakAmp W nc v ∧
+      (exportWaveformsOpt (rescaledUnit d f) inds).getD t none = some E ∧ E.length = ns ∧
+      ∀ s j, s < ns → j < (inds.getD t []).length →
+        entry E s j = entry ((unwhitened d).getD t []) s ((inds.getD t []).getD j 0) *
+          (v / (ampsAu d).getD t 0) :=
+  Lemmas.exported_waveform_rescaled d f inds hnn hf t ht hti v hv hau ns nc hns hnc hrect
+
+/-- … and the block of an id WITHOUT spikes (NaN amplitude) is NaN. -/
+theorem exported_waveform_nan (d : Data) (f : Rat) (inds : List (List Nat)) (t : Nat) (ht : t < d.wfsW.length)
+    (hv : (ampsVUnit d f).getD t none = none) :
+    (exportWaveformsOpt (rescaledUnit d f) inds).getD t none = none :=
+  Lemmas.exported_waveform_nan d f inds t ht hv
+
+/-- Without features a spike's depth is its cluster's depth: the depth (y) of the cluster's peak channel (NaN if the
+cluster id were listed in `nan_idx`), for every spike whose cluster id is below the number of clusters (the real code
+raises `IndexError` otherwise). -/
+theorem spike_depth_eq (ys : List Rat) (peaks nanIdx sc : List Nat) (i : Nat) (hi : i < sc.length)
+    (hc : sc.getD i 0 < peaks.length) :
+    (spikeDepthsFromClusters (clusterDepths ys peaks nanIdx) sc).getD i none =
+      if nanIdx.contains (sc.getD i 0) then none else some (ys.getD (peaks.getD (sc.getD i 0) 0) 0) :=
+  Lemmas.spike_depth_eq ys peaks nanIdx sc i hi hc
+
+-- `hr`: the domain (a sampling rate); the equation does not need it
+set_option linter.unusedVariables false in
+/-- `clusters.peakToTrough[c]` in MILLISECONDS: NaN for ids without spikes, else `(iM − im) · 1000 / rate` for THE
+peak channel `p` of the cluster waveform and THE first arg-max `iM` / arg-min `im` along time on it (direct formula
+of C09 `duration_ms_spec`; objects exist by C09 `duration_objects_exist`); one entry per cluster. -/
+theorem peakToTrough_eq (wfs : List Mat) (rate : Rat) (hr : 0 < rate) (nanIdx : List Nat) (ns nc : Nat)
+    (hns : 0 < ns) (hnc : 0 < nc) (hrect : ∀ W ∈ wfs, Rect W ns nc) (c : Nat) (hc : c < wfs.length)
+    (p iM im : Nat) (hp : IsPeakChannel (wfs.getD c []) nc p) (hM : IsFirstMax (chan (wfs.getD c []) p) iM)
+    (hm : IsFirstMin (chan (wfs.getD c []) p) im) :
+    (exportPeakToTrough wfs rate nanIdx).getD c none =
+      (if nanIdx.contains c then none else some ((((iM : Int) - (im : Int) : Int) : Rat) * 1000 / rate)) ∧
+    (exportPeakToTrough wfs rate nanIdx).length = wfs.length :=
+  ⟨Lemmas.peakToTrough_eq wfs rate nanIdx ns nc hns hnc hrect c hc p iM im hp hM hm,
+   Lemmas.exportPeakToTrough_length wfs rate nanIdx⟩
+
+/-- "Peak channel FIRST", literally: when no other channel sits at the peak channel's position (the loader replaces
+non-distinct positions, model.py:390-393, so every exported dataset satisfies this) and at least one channel is
+listed, EVERY row the acceptance predicate `nearestOK` admits — in particular the real export's row, whatever the
+tie-breaking of its unstable `argsort` — starts with the peak channel itself.  With two co-located channels the clause
+is not determined: positions `[(0,0),(0,0)]`, peak 1 admits the row `[0, 1]`. -/
+theorem nearestOK_peak_first (pos : List (Rat × Rat)) (probes : List Nat) (peak ncw : Nat) (row : List Nat)
+    (hp : peak < pos.length) (hn : 0 < ncw)
+    (hd : ∀ c, c < pos.length → c ≠ peak → pos.getD c (0, 0) ≠ pos.getD peak (0, 0))
+    (h : nearestOK pos probes peak ncw row = true) : row.head? = some peak :=
+  Lemmas.nearestOK_peak_first pos probes peak ncw row hp hn hd h
+
+/-- … and so does the model's row. -/
+theorem nearest_peak_first (pos : List (Rat × Rat)) (probes : List Nat) (peak ncw : Nat)
+    (hp : peak < pos.length) (hn : 0 < ncw)
+    (hd : ∀ c, c < pos.length → c ≠ peak → pos.getD c (0, 0) ≠ pos.getD peak (0, 0)) :
+    (nearestSameProbe pos probes peak ncw).head? = some peak :=
+  Lemmas.nearest_peak_first pos probes peak ncw hp hn hd
+
 /-! Non-vacuity -/
+example : (nearestSameProbe [(0, 0), (0, 20), (10, 10), (0, 40), (5, 5)] [0, 0, 1, 0, 1] 1 4).head? = some 1 :=
+  nearest_peak_first _ _ 1 4 (by decide) (by decide) (by decide +kernel)
+example : nearestOK [(0, 0), (0, 0)] [0, 0] 1 2 [0, 1] = true := by decide +kernel   -- co-located: not determined
+section Instances
+def exT : Data := ⟨[[[1, 0], [-1, 2]], [[0, 3], [0, -3]], [[5, 5], [1, 1]]], [[2, 0], [0, 1/2]], [1, 2, 1/2], [0, 0, 1]⟩
+def exC : Data := ⟨[[[1, 0], [-1, 2]], [[0, 3], [0, -3]]], [[2, 0], [0, 1/2]], [1, 2, 1/2], [1, 0, 1]⟩
+
+/-- the five files for factor 5/2 (template 2 has no spikes: NaN amplitude, NaN waveform; channels listed in reverse
+order for template 1) -/
+example : exportAmpFiles exT exC (5/2) [[0, 1], [1, 0], [0, 1]] [[1], [1]] =
+    { spikesAmps := [10, 20, 15/4], templatesAmps := [some 15, some (15/4), none],
+      templatesWaveforms := [some [[15/2, 0], [-15/2, 15/4]], some [[15/8, 0], [-15/8, 0]], none],
+      clustersAmps := [some 20, some (45/8)], clustersWaveforms := [some [[0], [5]], some [[45/16], [-45/16]]] } := by
+  decide +kernel
+example : (exportAmpFiles exT exC (5/2) [] []).spikesAmps = (exportAmpFiles exT exC 1 [] []).spikesAmps.map (· * (5/2)) :=
+  (amps_carry_factor exT exC (5/2) [] []).1
+example : (exportAmpFiles exT exC (5/2) [] []).spikesAmps.getD 1 0 = 2 * 4 * (5/2) := by
+  have h := spike_amps_eq exT exC (5/2) [] [] 1 (by decide) (by decide) (by decide)
+  rwa [show listMax (chAmps (matMul (exT.wfsW.getD (exT.spikes.getD 1 0) []) exT.wmi)) = 4 by decide +kernel,
+    show exT.amplitudes.getD 1 0 = 2 by decide +kernel] at h
+example : (exportAmpFiles exT exC (5/2) [] []).clustersAmps.getD 1 none = meanOver exC.spikes (spikeAmpsUnit exC (5/2)) 1 :=
+  (template_cluster_amps_eq_mean exT exC (5/2) [] [] (by decide) (by decide)).2.1 1 (by decide)
+example : ∃ W E, (rescaledUnit exT (5/2)).getD 1 none = some W ∧ IsPeakAmp W 2 (15/4) ∧
+    (exportWaveformsOpt (rescaledUnit exT (5/2)) [[0, 1], [1, 0], [0, 1]]).getD 1 none = some E ∧ E.length = 2 ∧
+    ∀ s j, s < 2 → j < ([[0, 1], [1, 0], [0, 1]].getD 1 []).length →
+      entry E s j = entry ((unwhitened exT).getD 1 []) s (([[0, 1], [1, 0], [0, 1]].getD 1 []).getD j 0) *
+        (15/4 / (ampsAu exT).getD 1 0) :=
+  exported_waveform_rescaled exT (5/2) [[0, 1], [1, 0], [0, 1]] (by decide +kernel) (by decide +kernel) 1 (by decide)
+    (by decide) (15/4) (by decide +kernel) (by decide +kernel) 2 2 (by decide) (by decide) (by decide +kernel)
+example : (exportWaveformsOpt (rescaledUnit exT (5/2)) [[0, 1], [1, 0], [0, 1]]).getD 2 none = none :=
+  exported_waveform_nan exT (5/2) _ 2 (by decide) (by decide +kernel)
+example : spikeDepthsFromClusters (clusterDepths [10, 20, 40] [2, 0, 1] [1]) [0, 2, 2, 0] =
+    [some 40, some 20, some 20, some 40] := by decide +kernel
+example : (spikeDepthsFromClusters (clusterDepths [10, 20, 40] [2, 0, 1] [1]) [0, 2, 2, 0]).getD 1 none = some 20 := by
+  rw [spike_depth_eq [10, 20, 40] [2, 0, 1] [1] [0, 2, 2, 0] 1 (by decide) (by decide)]; decide +kernel
+example : exportPeakToTrough [[[1, 0, 4], [-1, 2, 0], [3, 1, 2]], [[0, 0, 1], [0, 5, 0], [0, -1, 0]],
+    [[0, 0, 0], [0, 0, 0], [0, 0, 0]]] 30000 [2] = [some (1/30), some (-1/30), none] := by decide +kernel
+example : (exportPeakToTrough [[[1, 0, 4], [-1, 2, 0], [3, 1, 2]]] 30000 [5]).getD 0 none =
+    some (((((2 : Nat) : Int) - ((1 : Nat) : Int) : Int) : Rat) * 1000 / 30000) := by
+  have hp : IsPeakChannel ([[[1, 0, 4], [-1, 2, 0], [3, 1, 2]]].getD 0 []) 3 0 := by
+    have h := (C09.Lemmas.peakChannels_spec [[[1, 0, 4], [-1, 2, 0], [3, 1, 2]]] 0 3 3 (by decide) ⟨by decide, by decide⟩
+      (by decide) (by decide)).1
+    rwa [show (peakChannels [[[1, 0, 4], [-1, 2, 0], [3, 1, 2]]]).getD 0 0 = 0 by decide +kernel] at h
+  have hM : IsFirstMax (chan ([[[1, 0, 4], [-1, 2, 0], [3, 1, 2]]].getD 0 []) 0) 2 := by unfold IsFirstMax; decide +kernel
+  have hm : IsFirstMin (chan ([[[1, 0, 4], [-1, 2, 0], [3, 1, 2]]].getD 0 []) 0) 1 := by unfold IsFirstMin; decide +kernel
+  rw [(peakToTrough_eq _ 30000 (by decide +kernel) [5] 3 3 (by decide) (by decide) (by decide) 0 (by decide) 0 2 1 hp hM hm).1]
+  decide +kernel
+end Instances
+
 example : exportRawInd (mergeChannelMaps [[2, 0, 3, 1], [1, 0], [0, 2, 1]]) (channelProbes [[2, 0, 3, 1], [1, 0], [0, 2, 1]])
     = [2, 0, 3, 1, 1, 0, 0, 2, 1] := by decide
 example : nearestSameProbe [(0, 0), (0, 20), (10, 10), (0, 40), (5, 5)] [0, 0, 1, 0, 1] 1 4 = [1, 0, 3, 2] := by
